@@ -758,11 +758,339 @@ def correspondence(ctx):
         out.count(key=("cont", method, start, dur, date, step), kind=f"stages-{method}", on="1" in real, all_on="0" not in real)
         add(" ".join(["c17.cont", method, str(start), str(start + dur), str(date), str(step)]),
             lambda rep, real=real, inp=inp: rep == real or out.fail("c17-stages", "ContinuousMan.check at the stage dates differs from the model", inp, observed=real, expected=rep))
+    correspondence2(ctx, out, add, d0)
     replies = core.Driver().run(reqs)
     for req, fn, rep in zip(reqs, checks, replies):
         fn(rep)
         out.sample({"request": req[:100] + "…", "model": rep[:80]}, limit=3)
     return out
+
+
+# ---------------------------------------------------------------- correspondence, second part (quadrature, _accel, names, references)
+
+NAME_POOL = ["QSW", "TNW", "qsw", "tnw", "Qsw", "qSW", "QsW", "Tnw", "tNW", "tnW", "TnW", None, "EME2000", "MOD", "ITRF", "RSW", "rsw", "LVLH", "RTN", "rtn",
+             "", "QSW ", " TNW", "QSWX", "TN", "NTW", "eme2000", "Hill", "QSW\t"]
+
+
+def name_tok(name):
+    if name is None:
+        return "~"
+    if name == "":
+        return "-"
+    return ",".join(str(ord(c)) for c in name)
+
+
+class FakeBody:
+    """an attracting body at a fixed place (only `.µ` and `.propagate(date)` are used by `_accel`)"""
+
+    def __init__(self, mu, pos):
+        self.µ = mu
+        self.pos = list(pos)
+        self.name = "fake"
+
+    def propagate(self, date):
+        from beyond.orbits import StateVector
+        return StateVector(self.pos + [0.0, 0.0, 0.0], date, "cartesian", "EME2000")
+
+
+def gen_bodies(rng, d0):
+    from beyond.env.solarsystem import get_body
+    k = rng.choice([0, 1, 1, 2, 3, 3, 4])
+    out = []
+    for _ in range(k):
+        c = rng.random()
+        if c < 0.5:
+            out.append(get_body(rng.choice(["Earth", "Moon", "Sun"])))
+        else:
+            out.append(FakeBody(10 ** rng.uniform(10, 15), [x * 10 ** rng.uniform(7.5, 9) for x in rand_unit(rng)]))
+    return out
+
+
+def snapshot(ref):
+    """what a conversion can observe of a reference object: class, frame, form, coordinates (bit patterns), date(s)"""
+    from beyond.orbits.ephem import Ephem
+    if isinstance(ref, Ephem):
+        pts = [ref[0], ref[-1]]
+        kind = "Ephem"
+    else:
+        pts = [ref]
+        kind = type(ref).__name__
+    coords = []
+    for pt in pts:
+        coords += [f2b(float(v)) for v in pt] + [f2b(float(pt.date._mjd))]
+    return kind, str(pts[0].frame), str(pts[0].form.name), coords + [str(len(ref))] if kind == "Ephem" else coords
+
+
+def gen_reference(rng, d0):
+    """(kind, pristine copy, live object): an Orbit with the Kepler propagator, an Ephem or a plain StateVector, expressed in the
+    parent frame (EME2000) or in another one, in cartesian or keplerian form"""
+    from beyond.dates import timedelta
+    from beyond.orbits import StateVector
+    kep, orb = gen_ref_orbit(rng, d0)
+    kind = rng.choice(["Orbit", "Ephem", "StateVector"])
+    frame = rng.choice(["EME2000", "EME2000", "MOD", "TEME", "ITRF", "TOD"])
+    form = rng.choice(["cartesian", "keplerian"]) if frame not in ("ITRF",) else "cartesian"
+
+    def make():
+        o = mk_orbit(kep, "keplerian", orb.propagator.copy(), d0)
+        if kind == "Ephem":
+            e = o.ephem(start=d0 - timedelta(seconds=4000), stop=timedelta(seconds=92000), step=timedelta(seconds=180))
+            if frame != "EME2000":
+                e.frame = frame
+            return e
+        if kind == "StateVector":
+            sv = StateVector(list(map(float, o.copy(form="cartesian"))), d0, "cartesian", "EME2000")
+            if frame != "EME2000":
+                sv.frame = frame
+            if form != "cartesian":
+                sv.form = form
+            return sv
+        if frame != "EME2000":
+            o.frame = frame
+        if form != "keplerian":
+            o.form = form
+        return o
+    return {"kind": kind, "frame": frame, "form": form, "kep": kep}, make(), make()
+
+
+def ref_state(pristine, date, frame="EME2000"):
+    """cartesian state of the reference at `date` in `frame`, from a copy the frames never saw"""
+    st = pristine.propagate(date) if hasattr(pristine, "propagate") else pristine
+    return list(map(float, st.copy(form="cartesian", frame=frame)))
+
+
+def correspondence2(ctx, out, add, d0):
+    import numpy as np
+    from beyond.dates import timedelta
+    from beyond.frames.local import to_local, to_qsw, to_tnw
+    from beyond.frames.frames import orbit2frame
+    from beyond.orbits import Orbit
+    from beyond.orbits.man import ImpulsiveMan, ContinuousMan
+    from beyond.propagators.keplernum import KeplerNum
+    rng = ctx.rng
+    # 8. stage dates: `step * c` (timedelta x float) for every node of the four tableaux
+    for _ in range(ctx.n(300, 6000)):
+        method = rng.choice(["rk4", "euler", "dopri54", "rkf54"])
+        cc = float(rng.choice(list(KeplerNum.BUTCHER[method]["c"])))
+        h = rng.choice([rng.randrange(1, 50), rng.randrange(1, 10 ** 9), 60_000_000, 4680_000 * rng.randrange(1, 30), 2 * rng.randrange(1, 10 ** 6) + 1])
+        real = (timedelta(microseconds=h) * cc) // timedelta(microseconds=1)
+        num, den = cc.as_integer_ratio()
+        inp = {"method": method, "c": cc, "step_us": h}
+        out.count(key=("offset", cc, h), kind=f"stage-offset-{method}", exact=(h * num) % den == 0)
+        add(f"c17.offset {num} {den} {h}", lambda rep, real=real, inp=inp: rep == str(real) or out.fail("c17-stage-offset", "step * c differs from the model (divide and round half to even)", inp, observed=real, expected=rep))
+    # 9. delivered delta-v of a burn in the real step loop (gravity-free, inertial thrust vector) vs the quadrature model
+    for _ in range(ctx.n(50, 1500)):
+        method = rng.choice(["rk4", "rk4", "euler", "dopri54", "rkf54"])
+        base = 4680 if method in ("dopri54", "rkf54") else rng.choice([1000, 2000, 4680, 30000])
+        h = base * rng.randrange(1, 26 if base > 2000 else 60)
+        n = rng.randrange(2, 14)
+        c = rng.random()
+        if c < 0.35:     # whole steps from a grid date, the first date included
+            p = rng.choice([0, 0, 1, 2, rng.randrange(0, n)])
+            start, dur = p * h, h * rng.randrange(1, max(2, n - p + 1))
+            kind = "whole-steps-from-first-date" if p == 0 else "whole-steps"
+        elif c < 0.6:    # at a stage date +- 1 ms
+            cc = float(rng.choice(list(KeplerNum.BUTCHER[method]["c"])))
+            start = h * rng.randrange(0, n) + round(h * cc) + rng.choice([0, 1, -1])
+            dur = rng.choice([h, h // 2, 1, rng.randrange(1, 3 * h)])
+            kind = "at-stage-date"
+        else:
+            start, dur = rng.randrange(-h, n * h), rng.randrange(1, 4 * h)
+            kind = "anywhere"
+        acc = [x * 10 ** rng.uniform(-4, -2) for x in rand_unit(rng)]
+        prop = KeplerNum(timedelta(milliseconds=h), [], method=method, tol=1e12)    # tol: the adaptive tableaux keep the nominal step
+        orb = mk_orbit([7e6, 1e5, 2e5, 100.0, 7000.0, 300.0], "cartesian", prop, d0)
+        by_dv = rng.random() < 0.3
+        orb.maneuvers = [ContinuousMan(ms_date(d0, start), timedelta(milliseconds=dur), **({"dv": [a * dur / 1000 for a in acc]} if by_dv else {"accel": acc}))]
+        pts = list(orb.iter(stop=timedelta(milliseconds=h * n)))
+        steps = [round((b.date - a.date).total_seconds() * 1e6) for a, b in zip(pts[:-1], pts[1:])]
+        dv = [float(pts[-1][3 + j] - pts[0][3 + j]) for j in range(3)]
+        inp = {"method": method, "step_ms": h, "nsteps": n, "start_ms": start, "duration_ms": dur, "accel": acc, "by_dv": by_dv}
+        out.count(key=("thrust", method, h, n, start, dur), kind=f"thrust-{method}-{kind}")
+        if any(st != h * 1000 for st in steps) or len(steps) != n:
+            out.fail("c17-thrust", "the step loop did not take the nominal steps", inp, observed=steps[:20])
+            continue
+
+        def chk(rep, dv=dv, acc=acc, inp=inp, dur=dur):
+            try:
+                units, den = [int(t) for t in rep.split()]
+            except ValueError:
+                out.fail("c17-thrust", "model rejected the request: " + rep, inp); return
+            tt = units / den * 1e-6
+            exp = [a * tt for a in acc]
+            if not all(abs(a - b) <= 1e-9 * norm(acc) * (abs(tt) + dur / 1000) + 1e-12 for a, b in zip(dv, exp)):
+                out.fail("c17-thrust", "velocity change of a gravity-free propagation differs from accel x thrust time of the quadrature model", dict(inp, model_thrust_time_s=tt),
+                         observed=dv, expected=exp)
+        add(" ".join(["c17.thrust", method, str(start * 1000), str((start + dur) * 1000), "0"] + [str(st) for st in steps]), chk)
+    # 10. KeplerNum._accel with several attracting bodies and several maneuvers
+    for _ in range(ctx.n(120, 4000)):
+        x = gen_state(rng)
+        bodies = gen_bodies(rng, d0)
+        prop = KeplerNum(timedelta(seconds=60), bodies)
+        orb = mk_orbit(x, "cartesian", prop, d0)
+        t = rng.randrange(0, 600_000)
+        mans, desc = [], []
+        for _k in range(rng.choice([0, 1, 1, 2, 3])):
+            vec = gen_vec(rng)
+            tag = rng.choice(["QSW", "TNW", "tnw", None, "EME2000"])
+            c = rng.random()
+            if c < 0.2:
+                m = ImpulsiveMan(ms_date(d0, t + rng.choice([0, 1, 30_000])), vec, frame=tag)
+            else:
+                st = t + rng.choice([0, -1, 1, -30_000, 30_000, -59_999])
+                m = ContinuousMan(ms_date(d0, st), timedelta(milliseconds=rng.choice([1, 2, 60_000])), accel=vec, frame=tag)
+            mans.append(m)
+        orb.maneuvers = mans
+        prop.orbit = orb
+        y = prop.orbit.copy()
+        y.date = ms_date(d0, t)
+        real = prop._accel(y)
+        toks = ["c17.accel"] + ftoks(x) + [str(len(bodies))]
+        for b in bodies:
+            bp = b.propagate(y.date)
+            bp.frame = y.frame
+            toks += [f2b(float(b.µ))] + ftoks(list(map(float, bp[:3])))
+        toks.append(str(len(mans)))
+        n_on = 0
+        for m in mans:
+            on = isinstance(m, ContinuousMan) and bool(m.check(y.date))
+            n_on += on
+            up = m.frame if m.frame in ("QSW", "TNW") else "-"
+            vec = m._accel if isinstance(m, ContinuousMan) else m._dv
+            toks += ["1" if on else "0", up] + ftoks(list(map(float, vec)))
+        inp = {"state": x, "date_ms": t, "bodies": [getattr(b, "name", "?") + (str(b.pos) if isinstance(b, FakeBody) else "") for b in bodies],
+               "maneuvers": [repr((type(m).__name__, m.frame)) for m in mans]}
+        out.count(key=("accel", tuple(x), t, len(bodies), len(mans)), kind="accel", n_bodies=len(bodies), n_thrusting=n_on)
+        if list(real[:3]) != list(x[3:]):
+            out.fail("c17-accel", "_accel(orb)[:3] is not the velocity", inp, observed=list(map(float, real[:3])))
+        scale = float(np.linalg.norm(real[3:])) + 1e-30
+        add(" ".join(toks), lambda rep, real=list(map(float, real[3:])), inp=inp, scale=scale: cmp_floats(out, "c17-accel", "_accel differs from the loop program run on the same bodies and maneuvers", inp, real, rep, 1e-12 * scale, rtol=1e-9))
+    # 11. frame names: which matrix a spelling selects
+    xs = [gen_state(rng) for _ in range(3)]
+    for name in NAME_POOL + [rng.choice(["q", "Q"]) + rng.choice(["s", "S"]) + rng.choice(["w", "W"]) for _ in range(ctx.n(4, 40))]:
+        x = rng.choice(xs)
+        orb = mk_orbit(x)
+        vec = [0.3, -1.1, 0.7]
+        cands = {"qsw": np.array(axes_expected("QSW", x)).T @ np.array(vec), "tnw": np.array(axes_expected("TNW", x)).T @ np.array(vec), "identity": np.array(vec)}
+
+        def classify(got):
+            hits = [k for k, v in cands.items() if np.allclose(got, v, rtol=0, atol=1e-12)]
+            return hits[0] if len(hits) == 1 else "unclassified:" + str(list(map(float, got)))
+        for what in ("imp", "cont", "local", "o2f"):
+            if what == "local" and name is None:
+                continue
+            try:
+                if what == "imp":
+                    real = classify(ImpulsiveMan(d0, vec, frame=name).dv(orb))
+                elif what == "cont":
+                    real = classify(ContinuousMan(d0, timedelta(seconds=60), accel=vec, frame=name).accel(orb))
+                elif what == "local":
+                    m = to_local(name, np.array(x), expanded=False)
+                    real = "qsw" if np.array_equal(m, to_qsw(np.array(x))) else "tnw" if np.array_equal(m, to_tnw(np.array(x))) else "unclassified"
+                else:
+                    _FRAME_SEQ[0] += 1
+                    fname = f"C17N{_FRAME_SEQ[0] % 5}"
+                    from beyond.orbits import StateVector
+                    orbit2frame(fname, StateVector(x, d0, "cartesian", "EME2000"), orientation=name, exists_warning=False)
+                    p = np.array(x); p[:3] += np.array(vec)
+                    got = np.array(mk_orbit(list(p)).copy(frame=fname))[:3]
+                    back = {"qsw": np.array(axes_expected("QSW", x)) @ np.array(vec), "tnw": np.array(axes_expected("TNW", x)) @ np.array(vec), "identity": np.array(vec)}
+                    hits = [k for k, v in back.items() if np.allclose(got, v, rtol=0, atol=1e-6)]
+                    real = hits[0] if len(hits) == 1 else "unclassified:" + str(got.tolist())
+            except ValueError:
+                real = "value-error"
+            inp = {"what": what, "name": name, "state": x}
+            out.count(key=("name", what, str(name)), kind=f"name-{what}", selects=real.split(":")[0])
+            add(f"c17.name {what} {name_tok(name)}", lambda rep, real=real, inp=inp: rep == real or out.fail("c17-frame-name", "the matrix selected by a frame name differs from the regenerated name table", inp, observed=real, expected=rep))
+    # 12. reference objects of attached frames: sessions over Orbit / Ephem / StateVector references in and out of the parent frame
+    world_reqs, world_meta = [], []
+    for sidx in range(ctx.n(8, 60)):
+        _FRAME_SEQ[0] += 1
+        names = [f"C17W{_FRAME_SEQ[0] % 7}{c}" for c in "ab"]
+        refs = [gen_reference(rng, d0) for _ in range(3)]
+        dates = [d0 + timedelta(seconds=t) for t in (0.0, q6(rng.uniform(-3000, 3000)), q6(rng.uniform(0, 86400)))]
+        toks, convs, bound = [], [], {}
+        for meta, pristine, live in refs:
+            k, fr, fo, cs = snapshot(pristine)
+            toks += ["ref", k, fr, fo] + cs[:6]
+        toks.append("|")
+        for _ in range(ctx.n(10, 14)):
+            name = rng.choice(names)
+            if name not in bound or rng.random() < 0.25:
+                oid = rng.randrange(len(refs))
+                ori = rng.choice(["QSW", "TNW", "qsw", "TNW", None])
+                orbit2frame(name, refs[oid][2], orientation=ori, exists_warning=False)
+                bound[name] = (oid, ori)
+                toks += ["reg", name, ori.upper() if ori else "-", str(oid)]
+                continue
+            direction = rng.choice(["to", "from"])
+            oid, ori = bound[name]
+            # a bare StateVector is a point at its own date: in a frame other than the parent it is used at that date only
+            # (the centre link converts it at the date of the call, the orientation at its own date)
+            date = dates[0] if refs[oid][0]["kind"] == "StateVector" and refs[oid][0]["frame"] != "EME2000" else rng.choice(dates)
+            if direction == "to":
+                near = ref_state(refs[rng.randrange(len(refs))][1], date)
+                x = [near[j] + rng.uniform(-1, 1) * 10 ** rng.uniform(0, 6) for j in range(3)] + [near[j] + rng.uniform(-1, 1) * 10 ** rng.uniform(-3, 2) for j in range(3, 6)]
+                real = list(map(float, mk_orbit(x, "cartesian", None, date).copy(frame=name)))
+            else:
+                x = [rng.uniform(-1, 1) * 10 ** rng.uniform(0, 6) for _ in range(3)] + [rng.uniform(-1, 1) * 10 ** rng.uniform(-3, 2) for _ in range(3)]
+                real = list(map(float, Orbit(x, date, "cartesian", name, None).copy(frame="EME2000")))
+            toks += ["conv", name]
+            k, fr, fo, cs = snapshot(refs[oid][2])      # the live reference right after the conversion
+            convs.append((name, date, direction, x, real, f"{k}:{fr}:{fo}:" + ",".join(cs[:6]), oid))
+        world_reqs.append(" ".join(["c17.world"] + toks))
+        world_meta.append((refs, convs, toks))
+    world_replies = core.Driver().run(world_reqs) if world_reqs else []
+    for (refs, convs, toks), rep in zip(world_meta, world_replies):
+        ents = rep.split()
+        if len(ents) != len(convs):
+            out.fail("c17-frame-world", "world model returned a wrong number of readings: " + rep[:80], {"session": " ".join(toks)[:300]}); continue
+        for (name, date, direction, x, real, live_obs, oid), ent in zip(convs, ents):
+            parts = ent.split(":", 2)
+            meta, pristine, live = refs[oid]
+            inp = {"session": " ".join(t for t in toks if not t.isdigit() or len(t) < 6)[:400], "frame": name, "reference": meta, "date": str(date), "direction": direction, "state": x}
+            out.count(key=("world", name, str(date), direction, tuple(x)), kind=f"ref-{meta['kind']}-{meta['frame']}-{meta['form']}", direction=direction)
+            if len(parts) != 3 or int(parts[1]) != oid:
+                out.fail("c17-frame-world", "the conversion used another binding than the world model", inp, observed=oid, expected=ent); continue
+            if parts[2] != live_obs:
+                out.fail("c17-frame-reference-modified", "a conversion through an orbit-attached frame modified the reference object it was created from "
+                         "(class : frame : form : coordinates as bit patterns)", inp, observed=live_obs, expected=parts[2], violates_property=True)
+                continue
+            # orientation=None keeps the axes of the frame the reference is expressed in (not those of the parent): such bindings
+            # are evaluated in that frame F (x and the reference taken to F / the result taken back from F by the library)
+            fr = meta["frame"] if parts[0] == "-" else "EME2000"
+            refc = ref_state(pristine, date, fr)
+            sr, sv = norm(refc[:3]), norm(refc[3:])
+            xin = x
+            if fr != "EME2000" and direction == "to":
+                xin = list(map(float, mk_orbit(x, "cartesian", None, date).copy(frame=fr)))
+
+            def chk6(rep2, real=real, inp=inp, sr=sr, sv=sv, fr=fr, direction=direction, date=date):
+                if not rep2[0].isdigit():
+                    out.fail("c17-frame", "model rejected the request: " + rep2, inp); return
+                m = [b2f(t) for t in rep2.split()]
+                if fr != "EME2000" and direction == "from":
+                    from beyond.orbits import StateVector
+                    m = list(map(float, StateVector(m, date, "cartesian", fr).copy(frame="EME2000")))
+                if not (all(abs(a - b) <= 1e-9 * sr for a, b in zip(real[:3], m[:3])) and all(abs(a - b) <= 1e-9 * sv + 1e-9 for a, b in zip(real[3:], m[3:]))):
+                    out.fail("c17-frame", "conversion through a frame attached to an Orbit / Ephem / StateVector reference differs from the model evaluated on an untouched copy of the reference",
+                             inp, observed=real, expected=m)
+            add(" ".join(["c17." + direction, parts[0]] + ftoks(refc) + ftoks(xin)), chk6)
+    # 13. inclination / node direction slices of the cartesian -> keplerian conversion
+    for _ in range(ctx.n(100, 3000)):
+        x = gen_state(rng)
+        if norm(cross(x[:3], x[3:])[:2]) < 1e-3 * norm(cross(x[:3], x[3:])):
+            continue
+        k = mk_orbit(x).copy(form="keplerian")
+        inp = {"state": x}
+        out.count(key=("kepplane", tuple(x)), kind="kep-plane", state=state_kind(x))
+
+        def chkp(rep, k=k, inp=inp):
+            inc, ny, nx = [b2f(t) for t in rep.split()]
+            om = math.atan2(ny, nx) % (2 * math.pi)
+            if not (core.close(float(k.i), inc, rtol=1e-12, atol=1e-12) and abs(wrap(float(k.Omega) - om)) <= 1e-12):
+                out.fail("c17-kepplane", "inclination / node of the keplerian form differ from the translated slices", inp, observed=[float(k.i), float(k.Omega)], expected=[inc, om])
+        add(" ".join(["c17.kepplane"] + ftoks(x)), chkp)
 
 
 # ---------------------------------------------------------------- oracle parts (real API)
